@@ -63,6 +63,9 @@ def stages(tier, rng, only=None):
         [ac.random_dataset(rng, 6, 6, nmin=3) for _ in range(n_rand // 2)]
         + [ac.cyclic_dataset(rng, 3, 6, incomplete=k % 2 == 1) for k in range(n_rand // 2)], algorun.ALL_CONFIGS,
         ac.MIXEDMAG, flags=(0, 1), every={k: 4 * v for k, v in COSTLY.items()}), _nt))
+    out.append(ac.stage("lookalike_rankings", PID, lambda: ac.cases(
+        ac.lookalike_datasets(rng, 150 if tier == "quick" else 1500), nosolver + ["ExactPulp"], SCHEMES, flags=(0, 1),
+        namings=["weird"], every={"ExactPulp": 3}), _nt))
     out.append(ac.stage("majority_lookalikes", PID, lambda: ac.cases(
         ac.majority_datasets(), ["PickAPerm", "Bio[PickAPerm]", "Bio[PickAPerm,Copeland]", "BioConsert", "Borda"],
         [ac.P_UNI1, ac.P_UNI5, ac.P_PSE1], flags=(0, 1), namings=["weird", "weird", "letters"], all_schemes=True), _nt))
